@@ -33,7 +33,7 @@ ANCHORS = ["HashedIterable.__iter__", "ResultQuantifier.evaluate", "SymbolicExpr
            "ConclusionSelector.update_conclusion", "SymbolicExpression._is_duplicate_output_"]
 
 PATTERNS = ["shared_var", "shared_var2", "shared_sub", "shared_subquery", "independent", "same_query", "rule",
-            "domainless", "domainless_attr", "shared_pred", "shared_scalar", "shared_fn", "shared_attr"]
+            "domainless", "domainless_attr", "domainless_join", "shared_pred", "shared_scalar", "shared_fn", "shared_attr"]
 # a domain-less variable gets a fresh domain at every evaluate(): evaluations that share one do not interfere
 SHARING = {"shared_var", "shared_var2", "shared_sub", "shared_subquery", "same_query", "rule", "shared_pred",
            "shared_scalar", "shared_fn", "shared_attr"}
@@ -104,9 +104,21 @@ def gen(rng, tier, ctx):
     atoms = [GEN.gen_atom(rng, ["x"], False, gctx) for _ in range(3)]
     sequential = rng.random() < 0.45
     nq = 2
+    schedule = gen_schedule(rng, nq, sequential)
+    if pattern == "domainless_join":
+        # nested loops only: the join is advanced a few times, the other query runs from start to end (or is closed
+        # early), then the join goes on.  (Two iterators that walk the shared variable in alternation are the listed
+        # live-iterators finding.)
+        schedule = [["start", 0]] + [["next", 0]] * rng.randint(0, 4)
+        for _ in range(rng.randint(1, 2)):
+            j = len([s_ for s_ in schedule if s_[0] == "start"])
+            schedule += [["start", 1]] + [["next", j]] * rng.randint(0, 2) + [[rng.choice(["drain", "drain", "close"]), j]]
+            schedule += [["next", 0]] * rng.randint(0, 3)
+        schedule += [["drain", 0]]
+        sequential = False
     return {"pattern": pattern, "gen": rng.random() < 0.5, "world": world, "dom": dom, "dom2": dom2, "atoms": atoms,
             "t": rng.randint(0, 2), "u": rng.randint(0, 2), "rule_kind": rng.choice(["ref", "alt", "next", "ref+alt"]),
-            "schedule": gen_schedule(rng, nq, sequential), "sequential": sequential}
+            "schedule": schedule, "sequential": sequential}
 
 
 def exhaustive(tier, ctx):
@@ -117,6 +129,8 @@ def exhaustive(tier, ctx):
     world = G.gen_world(rng, n=4)
     gctx = {"ref_ok": {}}
     for pattern in PATTERNS:
+        if pattern == "domainless_join":
+            continue        # only nested-loop schedules are generated for it, see gen()
         for gen_ in (False, True):
             atoms = [["cmp", ">=", ["attr", ["var", "x"], "a"], ["lit", 1]], ["cmp", "<=", ["attr", ["var", "x"], "b"], ["lit", 1]],
                      ["contains", ["attr", ["var", "x"], "items"], ["lit", 1]]]
@@ -162,6 +176,12 @@ def build_queries(spec, m, armed):
     if p == "domainless":
         x = let(m.S0, None, name="x")
         return [an(entity(x, x.a >= spec["t"])), an(entity(x))]
+    if p == "domainless_join":
+        # the shared domain-less variable is the INNER variable of a join: it is walked again for every value of the
+        # outer one, also after the other evaluation has finished
+        x = let(m.S0, None, name="x")
+        y = let(m.S0, None, name="y")
+        return [an(set_of([y, x], y.a >= x.a)), an(entity(x, x.a >= spec["t"]))]
     if p == "domainless_attr":
         # the domain-less variable is reachable only through a selected expression
         x = let(m.S0, None, name="x")
@@ -254,7 +274,7 @@ def key_of(r, idmap, m):
 def run(spec, ctx):
     m = ctx["m"]
     C = ctx["counters"]
-    if spec["pattern"] in ("domainless", "domainless_attr"):
+    if spec["pattern"] in ("domainless", "domainless_attr", "domainless_join"):
         m.fresh_symbol_graph()
         objs = [m.S0(a=o["a"], name=o["name"]) for o in spec["world"]]
     else:
